@@ -1105,7 +1105,7 @@ class C13(Prop):
     pid = "C13"
     title = "Optimization never worsens quality; only clamped vertices move, on constraints"
     prebuilt = ["Model/C13_Optimizer.v", "Model/C13_Cases.v", "Proofs/C13_Optimizer.v", "Proofs/C13_Whole.v",
-                "Proofs/C13_Instances.v"]
+                "Proofs/C13_Instances.v", "Model/C13_Alias.v", "Proofs/C13_Alias.v"]
     gen_dependent_files = []
     property_files = ["Properties/C13.v"]
     trusted = [
